@@ -46,6 +46,8 @@ func init() {
 			{ID: "C13.R24", Text: "Close() returns from every lifecycle state, also when called from the listener: it only signals — no WaitGroup wait, receive, lock, sleep or blocking select in Close or what it calls", Run: closeOnlySignals},
 			{ID: "C13.R25", Text: "stopping the election does not pull the registry from under the heart-beat loop: leaderElection.Stop makes no call on the service discovery (exhaustive)", Run: leaderStopLeavesRegistry},
 			{ID: "C13.R26", Text: "a stopped mitigation stays stopped: the observe ticker field is assigned only where the loop is started (never cleared: reconfigure and Stop read it to know whether a loop runs)", Run: fieldWriters("couchbase", "rollbackMitigation", "observeTimer", "a cleared ticker makes a late cluster-map change start a new observe loop on a stopped mitigation", "rollbackMitigation).startObserve")},
+			{ID: "C13.R27", Text: "the serial close, which waits for one end event per CloseStream, is selected only for servers below 5.5: the constructor's gate is version.Lower(5.5.0) and Lower is the exact lexicographic < for all ints (same rules as C18.R1 and C18.R2)", Run: func(c *Ctx, id string) { c18r1(c, id); c18r2(c, id) }},
+			{ID: "C13.R28", Text: "the session a background loop belongs to ends before the close touches anything: in Stream.Close the session counter is advanced before the streams are closed and before the position map is emptied", Run: sessionAdvancedFirst},
 			{ID: "C13.R9", Text: "background waits are cancellable: the health checker blocks only in selects with a ctx.Done() case (same rule as C19.R2)", Run: c19r2},
 			{ID: "C13.R10", Text: "a cancel signal closes with closeWithCancel=true: the flag is raised in the branch of the wait that received the signal, before the close path runs, and is what Stream.Close receives", Run: c13r10},
 			{ID: "C13.R8", Text: "closeAllStreams closes every assigned vBucket: the serial branch iterates vbIDRange.Start..End inclusive, the parallel branch ranges over every tracked position", Run: closeAllRange},
@@ -383,21 +385,7 @@ func c13r3(c *Ctx, id string) {
 			if !isIf || !cyc[in.Block()] {
 				return
 			}
-			b, isB := ifi.Cond.(*ssa.BinOp)
-			if !isB || (b.Op.String() != "!=" && b.Op.String() != "==") {
-				return
-			}
-			var counter *types.Var
-			for _, side := range []ssa.Value{b.X, b.Y} {
-				if call, isCall := unwrap(side).(*ssa.Call); isCall && strings.Contains(calleeName(call.Common()), "sync/atomic.") && strings.HasSuffix(calleeName(call.Common()), ".Load") && len(call.Common().Args) == 1 {
-					counter = fieldOfAddr(call.Common().Args[0])
-				}
-				if f := loadedField(side); f != nil {
-					if bt, isBasic := f.Type().Underlying().(*types.Basic); isBasic && bt.Info()&types.IsInteger != 0 {
-						counter = f
-					}
-				}
-			}
+			counter := comparedCounter(w, ifi.Cond, 2)
 			if counter == nil {
 				return
 			}
@@ -834,4 +822,175 @@ func isGoWorker(w *World, fn *ssa.Function) bool {
 		}
 	}
 	return true
+}
+
+// comparedCounter: v is (possibly negated, possibly through a small accessor of this module whose every return is such
+// a test) an equality test between an integer counter field — read atomically or plainly — and another value; returns
+// that field, nil otherwise.
+func comparedCounter(w *World, v ssa.Value, depth int) *types.Var {
+	v = unwrap(v)
+	if u, ok := v.(*ssa.UnOp); ok && u.Op.String() == "!" {
+		return comparedCounter(w, u.X, depth)
+	}
+	if b, ok := v.(*ssa.BinOp); ok && (b.Op.String() == "!=" || b.Op.String() == "==") {
+		var counter *types.Var
+		for _, side := range []ssa.Value{b.X, b.Y} {
+			if call, isCall := unwrap(side).(*ssa.Call); isCall && strings.Contains(calleeName(call.Common()), "sync/atomic.") && strings.HasSuffix(calleeName(call.Common()), ".Load") && len(call.Common().Args) == 1 {
+				counter = fieldOfAddr(call.Common().Args[0])
+			}
+			if f := loadedField(side); f != nil {
+				if bt, isBasic := f.Type().Underlying().(*types.Basic); isBasic && bt.Info()&types.IsInteger != 0 {
+					counter = f
+				}
+			}
+		}
+		return counter
+	}
+	if call, ok := v.(*ssa.Call); ok && depth > 0 {
+		callee := call.Common().StaticCallee()
+		if callee == nil || callee.Blocks == nil || !w.inModule(callee) || callee.Signature.Results().Len() != 1 {
+			return nil
+		}
+		var counter *types.Var
+		n, bad := 0, 0
+		allInstrs(callee, func(in ssa.Instruction) {
+			if r, isRet := in.(*ssa.Return); isRet && in.Parent() == callee && len(r.Results) == 1 {
+				n++
+				if f := comparedCounter(w, r.Results[0], depth-1); f != nil && (counter == nil || counter == f) {
+					counter = f
+				} else {
+					bad++
+				}
+			}
+		})
+		if n >= 1 && bad == 0 {
+			return counter
+		}
+	}
+	return nil
+}
+
+// sessionAdvancedFirst (C13, C12): a background loop that stops when a session counter has moved is only stopped in time
+// if the close advances the counter BEFORE it closes the streams and empties the position map — an attempt admitted
+// after the streams were closed would leave a stream open behind Close, one after the map was emptied would fail.
+// In the implementation of Stream.Close: an instruction that advances the counter (itself, or a call of a helper that
+// does) dominates every instruction that reaches Client.CloseStream and every store to the position-map field.
+func sessionAdvancedFirst(c *Ctx, id string) {
+	w := c.W
+	counters := map[*types.Var]bool{}
+	for _, gl := range goLoops(w) {
+		if !gl.HasLoop || gl.Body == nil {
+			continue
+		}
+		cyc := cycleBlocks(gl.Body)
+		allInstrs(gl.Body, func(in ssa.Instruction) {
+			if ifi, ok := in.(*ssa.If); ok && cyc[in.Block()] {
+				if f := comparedCounter(w, ifi.Cond, 2); f != nil {
+					counters[f] = true
+				}
+			}
+		})
+	}
+	if len(counters) == 0 {
+		// every background loop is still required to have a stop the close path reaches (C13.R3); with no session-style
+		// stop there is no ordering to check
+		c.OKTrivial(id, "session-first", 0, "no background loop is stopped through a session counter: nothing to order (C13.R3 judges the stops)")
+		return
+	}
+	advances := func(in ssa.Instruction) bool {
+		if cc := callOf(in); cc != nil && strings.Contains(calleeName(cc), "sync/atomic.") && (strings.HasSuffix(calleeName(cc), ".Add") || strings.HasSuffix(calleeName(cc), ".Store")) && len(cc.Args) >= 1 && counters[fieldOfAddr(cc.Args[0])] {
+			return true
+		}
+		if st, ok := in.(*ssa.Store); ok && counters[fieldOfAddr(st.Addr)] {
+			return true
+		}
+		return false
+	}
+	closesStream := func(in ssa.Instruction) bool {
+		cc := callOf(in)
+		return cc != nil && isInvokeOf(cc, "Client", "CloseStream")
+	}
+	// does executing `in` (a call) run an instruction satisfying p in a synchronous callee?
+	through := func(in ssa.Instruction, p func(ssa.Instruction) bool) bool {
+		if p(in) {
+			return true
+		}
+		cc := callOf(in)
+		if cc == nil {
+			return false
+		}
+		if _, isGo := in.(*ssa.Go); isGo {
+			return false
+		}
+		callee := cc.StaticCallee()
+		if callee == nil || callee.Blocks == nil || !w.inModule(callee) {
+			return false
+		}
+		hit := false
+		for f := range w.syncCallees(callee, 3, true) {
+			for _, g := range withAnon(f) {
+				allInstrs(g, func(x ssa.Instruction) {
+					if p(x) {
+						hit = true
+					}
+				})
+			}
+		}
+		return hit
+	}
+	impls := w.implsOf("stream", "Stream", "Close")
+	c.need(len(impls) > 0, id, "implementation of stream.Stream.Close")
+	for _, fn := range impls {
+		c.see(fn)
+		var posMap *types.Var
+		if rt := fn.Signature.Recv(); rt != nil {
+			if pt, ok := rt.Type().(*types.Pointer); ok {
+				if st, ok := pt.Elem().Underlying().(*types.Struct); ok {
+					for i := 0; i < st.NumFields(); i++ {
+						if ts := st.Field(i).Type().String(); strings.Contains(ts, "ConcurrentSwissMap[uint16,") && strings.HasSuffix(ts, "models.Offset]") {
+							posMap = st.Field(i)
+						}
+					}
+				}
+			}
+		}
+		var adv, cls []ssa.Instruction
+		allInstrs(fn, func(in ssa.Instruction) {
+			if through(in, advances) {
+				adv = append(adv, in)
+			}
+			if through(in, closesStream) {
+				cls = append(cls, in)
+			}
+			if st, ok := in.(*ssa.Store); ok && posMap != nil && fieldOfAddr(st.Addr) == posMap {
+				cls = append(cls, in)
+			}
+		})
+		construct := "session-first@" + fname(fn)
+		if len(adv) == 0 {
+			c.Fail(id, construct, fn.Pos(), "the close never advances the session counter the background loop compares")
+			continue
+		}
+		if len(cls) < 2 {
+			c.Undecided(id, construct, fn.Pos(), "only %d closing steps found in the close (expected the stream close and the emptying of the position map)", len(cls))
+			continue
+		}
+		var late []string
+		for _, x := range cls {
+			ok := false
+			for _, a := range adv {
+				if a != x && dominatesInstr(a, x) {
+					ok = true
+				}
+			}
+			if !ok {
+				late = append(late, w.pos(x.Pos()))
+			}
+		}
+		if len(late) == 0 {
+			c.OK(id, construct, adv[0].Pos(), "the session counter is advanced before each of the %d closing steps (stream close, position map emptied)", len(cls))
+		} else {
+			c.Fail(id, construct, adv[0].Pos(), "the session counter is not advanced before the closing step(s) at %s: a re-open attempt admitted in between opens a stream behind the close or fails on the emptied position map", strings.Join(late, ", "))
+		}
+	}
 }
